@@ -13,6 +13,7 @@ OPTION = @@OPTION@@
 CLI = @@CLI@@            # command-line flag that sets this option, or None
 L = @@L@@
 EXTRA = @@EXTRA@@        # further command-line arguments always present (another flag of the same run: options must not disturb each other)
+SFLAG = @@SFLAG@@        # spelling of the settings-file option on the command line: -s | --settings
 FIXB = @@FIXB@@          # argument name -> fixed boolean (shard constants that split large shards)
 hc.quiet_logging()
 hc.install_set_model()      # C17: set iteration order inside cminx is chosen by the harness (hash-seed model)
@@ -132,7 +133,7 @@ def check(u_set: bool, s_set: bool, c_set: bool, cps: $$CPS$$, rel_s: bool, rel_
     post: _
     """
     captured.clear()
-    args = ["in.cmake"] + list(EXTRA) + (["-s", SFILE] if use_s else [])          # with and without a -s file on the command line
+    args = ["in.cmake"] + list(EXTRA) + ([SFLAG, SFILE] if use_s else [])          # with and without a -s file on the command line
     if MODE == "wrongtype":
         bad = [1, "yes", ["x"]][kind] if isinstance(DEFAULT_VALUE, bool) else [True, 7, {"a": 1}][kind]
         Env.user = _put(bad) if which == 0 else {}
